@@ -507,6 +507,25 @@ func init() {
 			}
 			return res
 		}})
+	addOp(&connOp{name: "ReadBatchLateDeadline", key: 1, vers: []int16{2, 10}, fetch: true, prep: seekPrep, logs: []string{"v2plain", "v1mixed"}, starts: []int64{0}, maxBytes: []int{1 << 20},
+		targets: []target{{1, 0}},
+		call: func(e *env) opResult {
+			// the deadline that has to end the reading of the messages is set only after ReadBatch has returned (what the
+			// Reader does: a long wait for the response, a shorter one for its content)
+			b := e.conn.ReadBatchWith(readBatchCfg(e))
+			e.conn.SetReadDeadline(time.Now().Add(150 * time.Millisecond))
+			res := opResult{batch: true}
+			for len(res.msgs) < 10000 {
+				m, err := b.ReadMessage()
+				if err != nil {
+					res.readErr = err
+					break
+				}
+				res.msgs = append(res.msgs, m)
+			}
+			res.closeErr = b.Close()
+			return res
+		}})
 	addOp(&connOp{name: "ReadBatchShortBuffer", key: 1, vers: []int16{2, 10}, fetch: true, prep: seekPrep, logs: []string{"v1mixed", "v2plain"}, starts: []int64{0}, maxBytes: []int{1 << 20},
 		targets: []target{{1, 0}},
 		call: func(e *env) opResult {
@@ -597,7 +616,8 @@ func execute(tb ev.TB, fx *fixture, c connCase, mode string) (res opResult, p *p
 			hitMu.Lock()
 			hitAt = time.Now()
 			hitMu.Unlock()
-			if e.conn != nil {
+			if e.conn != nil && c.Op != "ReadBatchLateDeadline" {
+				// (that operation sets its short deadline itself, after ReadBatch has returned)
 				setDL(e.conn, c, time.Now().Add(stallDeadline))
 			}
 			if e.cancel != nil {
@@ -889,6 +909,19 @@ func evalConn(tb ev.TB, c connCase, base *baseline, shared *fixture) {
 			fail("c17/no-error/"+sig, "the call returned data without error: %v", res)
 			return
 		}
+		recordsFrom := -1
+		for _, f := range base.frame.Fields {
+			if f.Kind == "records_size" && recordsFrom < 0 {
+				recordsFrom = f.Off + f.Width
+			}
+		}
+		// (ReadBatch itself reads up to the first batch / message header: only a stall well inside the record set happens under
+		// the deadline that was set afterwards)
+		if c.Op == "ReadBatchLateDeadline" && c.Variant == "stall" && recordsFrom >= 0 && c.K >= recordsFrom+80 && out.Took > 3*time.Second && ev.MachineLate(30*time.Second) < 200*time.Millisecond {
+			// the deadline in force while the messages are read is the one set after ReadBatch returned (150 ms)
+			fail("c17/late-deadline-not-honoured/"+sig, "the read deadline set after ReadBatch returned (150 ms ahead) did not end the stalled read: the call returned after %v (with the deadline set before it, 4 s)", out.Took)
+			return
+		}
 		if out.Took > 2500*time.Millisecond {
 			labels = append(labels, "returned_only_near_deadline")
 			ev.SampleTagged("near-deadline", 3, map[string]any{"case": c, "took": out.Took.String(), "outcome": res.String(), "region": region})
@@ -997,6 +1030,9 @@ func enumerateGroup(tb ev.TB, g connCase, rnd func(n int) int, all bool) {
 		stalls = []int{0, 5}
 		if n > 9 {
 			stalls = append(stalls, 8+rnd(n-8))
+		}
+		if g.Op == "ReadBatchLateDeadline" && n > 40 {
+			stalls = append(stalls, n/2, n-1) // inside the message set, which is read after ReadBatch has returned
 		}
 	}
 	if op.dials && !all {
